@@ -8,12 +8,14 @@ Open Scope Z_scope.
 
 (* one np.random.default_rng(seed=...) call observed by the harness: its seed argument, the draws made on
    it, and the calls made to the wrapped dataset by the getitem_xclass invocation that created it *)
-Record ocall := { oc_seed : option Z; oc_draws : list draw; oc_loads : list load }.
+Record ocall := { oc_seed : option Z; oc_draws : list draw; oc_loads : list load;
+                  oc_ctx : list load   (* the loads that were handed the context object the request returned *) }.
 
 Record obs := {
   o_calls : list ocall;
   o_items : list obs_value;           (* the returned tuple (a single item is a one-element list) *)
-  o_wit : option (nat * Q)            (* see Spec.spec_obs *)
+  o_wit : option (nat * Q);           (* see Spec.spec_obs *)
+  o_ctx_ids : list Z                  (* sample id decoded from every entry of the returned context *)
 }.
 
 Definition optz_eqb (a b : option Z) : bool :=
@@ -55,7 +57,8 @@ Fixpoint forall2b {A B} (f : A -> B -> bool) (a : list A) (b : list B) : bool :=
   end.
 Definition call_match (m : call) (o : ocall) : bool :=
   match c_rest m with [] => true | _ => false end       (* every recorded draw was consumed *)
-  && loads_eqb (s_loads (c_sample m)) (oc_loads o).
+  && loads_eqb (s_loads (c_sample m)) (oc_loads o)
+  && loads_eqb (s_ctx (c_sample m)) (oc_ctx o).
 
 (* outcome codes of the harness: 0 returned; otherwise the exception class *)
 Definition err_code (e : err) : nat :=
@@ -70,11 +73,14 @@ Definition err_code (e : err) : nat :=
   end%nat.
 
 (* an exception is inside the documented behaviour only where the code says so explicitly *)
-Definition err_allowed (c : cfg) (toks : list token) (code : nat) : bool :=
+Definition label_in_range (n : nat) (l : label) : bool :=
+  match l with LInt y => (0 <=? y) && (y <? Z.of_nat n) | LVec _ => true end.
+Definition err_allowed (c : cfg) (ds : dataset) (toks : list token) (code : nat) : bool :=
   match code with
   | 1%nat => match unify c with UNone => true | _ => false end          (* assert x.shape == x2.shape *)
   | 2%nat => Qltb 0 (cutmix_p c) || match unify c with UOther => true | _ => false end
   | 3%nat => has_other toks
+  | 4%nat => negb (forallb (fun k => label_in_range (ds_ncls ds) (ds_cls ds k)) (seq 0 (ds_len ds)))  (* one_hot raises *)
   | 6%nat => match mixup_alpha c with None => Qltb 0 (cutmix_p c) | Some _ => false end   (* cutmix-only config *)
   | _ => false
   end.
@@ -90,7 +96,7 @@ Definition check (t : case_t) : nat :=
   let m := mw_getitem ds c (oracle_of (o_calls o)) toks idx in
   match outcome with
   | O =>
-      if negb (spec_obs ds c toks idx (o_wit o) (o_items o)) then 2%nat else
+      if negb (spec_obs ds c toks idx (o_wit o) (o_items o) (o_ctx_ids o)) then 2%nat else
       match m with
       | Ok (vals, calls) =>
           if forall2b value_match vals (o_items o) && forall2b call_match calls (o_calls o)
@@ -98,7 +104,7 @@ Definition check (t : case_t) : nat :=
       | Err _ => 1%nat
       end
   | _ =>
-      if negb (err_allowed c toks outcome) then 2%nat else
+      if negb (err_allowed c ds toks outcome) then 2%nat else
       match m with
       | Err e => if (err_code e =? outcome)%nat then 0%nat else 1%nat
       | Ok _ => 1%nat
